@@ -187,9 +187,9 @@ func genEmptyAngle(r *proto.Rand) string {
 
 // one line: an image (or a link) inside link text, link syntax in the outer destination or title
 func genImageInLink(r *proto.Rand) string {
-	inner := pick(r, []string{"![]()", "![i](j)", "![i](j)", "![](j \"t\")", "![i](<j>)", "![i](<>)", "![i]", "[i](j)", "![[k]](j)", "![i][]", "\\![i](j)"})
+	inner := pick(r, []string{"![]()", "![i](j)", "![i](j)", "![](j \"t\")", "![i](<j>)", "![i](<>)", "![i]", "[i](j)", "[]()", "![[k]](j)", "![i][]", "\\![i](j)"})
 	rest := pick(r, []string{"a", "/", "a \"", "a '", "a \"x", "a 'x ", "[](>", "<x>", "a (", "x.html \""}) + pick(r, []string{"", "[](", "[](", "[t](", "](", " [](", "[[]("}) + pick(r, simpleDests) + pick(r, []string{")", "\")", "')", " )", " \"\")", "", "\" )"})
-	return pick(r, []string{"", "", "x ", "[", "`"}) + "[" + pick(r, []string{"", "a "}) + inner + pick(r, []string{"", " b"}) + "](" + rest
+	return pick(r, []string{"", "", "x ", "[", "`", "!", "!", "</a>", "<b>x</b> "}) + "[" + pick(r, []string{"", "a "}) + inner + pick(r, []string{"", " b"}) + "](" + rest
 }
 
 // inline elements around links whose titles hold closing tags
